@@ -498,12 +498,15 @@ pub enum Lie {
     LaterMinus1,
     /// honest on the first `len()` call, two too large on every later call
     LaterPlus2,
+    /// truthful `len()`, but `size_hint()` left at the default `(0, None)` (a sloppy but legal
+    /// `ExactSizeIterator` implementation)
+    SloppyHint,
 }
 
 impl Lie {
     pub fn apply(self, n: usize) -> usize {
         match self {
-            Lie::Honest | Lie::LaterMinus1 | Lie::LaterPlus2 => n,
+            Lie::Honest | Lie::LaterMinus1 | Lie::LaterPlus2 | Lie::SloppyHint => n,
             Lie::Minus1 => n.saturating_sub(1),
             Lie::Plus1 => n + 1,
             Lie::Plus2 => n + 2,
@@ -556,6 +559,9 @@ impl<E> Iterator for SimIter<E> {
         self.items.pop_front()
     }
     fn size_hint(&self) -> (usize, Option<usize>) {
+        if self.lie == Lie::SloppyHint {
+            return (0, None);
+        }
         let n = self.reported(self.len_calls.get() == 0);
         (n, Some(n))
     }
